@@ -36,9 +36,13 @@ def run(ctx):
     cfg = CFG(fn)
     unit = fn.name
 
+    # the emission may be wrapped (a helper that calls the emitter once and reports success): calls of such a wrapper count as emissions
+    EMITS = {EMIT} | {f.name for f in functions(t) if f is not fn and f.name != EMIT
+                      and sum(1 for c in walk_no_nested(f) if isinstance(c, ast.Call) and isinstance(c.func, ast.Name) and c.func.id == EMIT) == 1}
+
     def is_emit(n):
         return n.ast is not None and n.kind in ("stmt", "test") and any(
-            isinstance(c, ast.Call) and isinstance(c.func, ast.Name) and c.func.id == EMIT for c in walk_no_nested(n.ast))
+            isinstance(c, ast.Call) and isinstance(c.func, ast.Name) and c.func.id in EMITS for c in walk_no_nested(n.ast))
 
     # ---- a: grouping ---------------------------------------------------------------
     fors = [n for n in ast.walk(fn) if isinstance(n, ast.For)]
@@ -129,11 +133,33 @@ def run(ctx):
                     # the path ends at the test: the false edge leads straight back to the loop header
                     return True
         return False
-    counts = sorted({sum(1 for n in p if is_emit(n)) for p in paths if not _empty_group_exit(p)})
+    def _conditional_emit(n):
+        """an emitter call in a later operand of `and` / `or` (or in a conditional expression) of the node's expression is evaluated only sometimes"""
+        if not is_emit(n):
+            return False
+        for b in ast.walk(n.ast):
+            later = []
+            if isinstance(b, ast.BoolOp):
+                later = b.values[1:]
+            elif isinstance(b, ast.IfExp):
+                later = [b.body, b.orelse]
+            for v in later:
+                if any(isinstance(c, ast.Call) and isinstance(c.func, ast.Name) and c.func.id in EMITS for c in ast.walk(v)):
+                    return True
+        return False
+    counts = set()
+    for p in paths:
+        if _empty_group_exit(p):
+            continue
+        k = sum(1 for n in p if is_emit(n))
+        counts.add(k)
+        if any(_conditional_emit(n) for n in p):
+            counts.add(k - 1)
+    counts = sorted(counts)
     ctx.check("C05.b.one-emission", SM, unit, "emissions per group iteration", counts == [1],
               "on every path through one group iteration exactly one action event is generated (counts over %d paths: %s)" % (len(paths), counts), line=gl.lineno)
     inner = [f for f in ast.walk(gl) if isinstance(f, ast.For) and f is not gl and any(f is s for s in linear(gl.body))]
-    inner_emit = [c for f in inner for c in ast.walk(f) if isinstance(c, ast.Call) and isinstance(c.func, ast.Name) and c.func.id == EMIT]
+    inner_emit = [c for f in inner for c in ast.walk(f) if isinstance(c, ast.Call) and isinstance(c.func, ast.Name) and c.func.id in EMITS]
     ctx.check("C05.b.one-emission", SM, unit, "no emission for co-winners", not inner_emit,
               "no action event is generated inside the loop over the other heads (co-winners share the winner's action)", line=gl.lineno)
     # emission argument is the picked head
@@ -149,13 +175,13 @@ def run(ctx):
 
     pick = [s for s in linear(gl.body) if isinstance(s, ast.Assign) and isinstance(s.targets[0], ast.Name) and _is_pick(s.value)]
     pv = pick[0].targets[0].id if pick else None
-    emits = [c for s in linear(gl.body) for c in ast.walk(s) if isinstance(c, ast.Call) and isinstance(c.func, ast.Name) and c.func.id == EMIT]
+    emits = [c for s in linear(gl.body) for c in ast.walk(s) if isinstance(c, ast.Call) and isinstance(c.func, ast.Name) and c.func.id in EMITS]
     ctx.check("C05.b.one-emission", SM, unit, "emission for the picked head", bool(emits) and pv is not None and all(src(c.args[-1]) == pv for c in emits),
               "the generated action event is the picked head's (`%s`)" % pv, line=gl.lineno)
     # single-head shortcut
     single = [n for n in ast.walk(fn) if isinstance(n, ast.If) and "len(" in src(n.test) and "== 1" in src(n.test)]
     if single:
-        body_emits = [c for s in single[0].body for c in ast.walk(s) if isinstance(c, ast.Call) and isinstance(c.func, ast.Name) and c.func.id == EMIT]
+        body_emits = [c for s in single[0].body for c in ast.walk(s) if isinstance(c, ast.Call) and isinstance(c.func, ast.Name) and c.func.id in EMITS]
         ctx.check("C05.b.one-emission", SM, unit, "single-head shortcut", len(body_emits) == 1 and not any(isinstance(x, (ast.For, ast.While)) for s in single[0].body for x in ast.walk(s)),
                   "with a single actionable head exactly one action event is generated", line=single[0].lineno)
 
